@@ -4,4 +4,4 @@ go 1.25
 
 require github.com/inspirer/textmapper v0.0.0
 
-replace github.com/inspirer/textmapper => /tmp/wk-syn/repo
+replace github.com/inspirer/textmapper => /repo
